@@ -849,7 +849,7 @@ def run(tier, seed, replay=None):
                 terms.append(coq_docstring_case(c, i)); idx.append(k)
             except OutOfFragment as ex:
                 frag[k] = str(ex)
-        res = ck.coq_eval(PRE, terms) if ck.model_ok else [None] * len(terms)
+        res = ck.coq_eval(PRE, terms, chunk=150) if ck.model_ok else [None] * len(terms)
         model = [None] * len(cases)
         for k, r in zip(idx, res):
             model[k] = r
@@ -936,7 +936,7 @@ def run(tier, seed, replay=None):
                 t_frag += 1
                 continue
             terms.append(t); meta.append((c, i, names))
-        res = ck.coq_eval(PRE, terms) if ck.model_ok else [None] * len(terms)
+        res = ck.coq_eval(PRE, terms, chunk=150) if ck.model_ok else [None] * len(terms)
         for (c, i, names), m in zip(meta, res):
             ck.note_case(json.dumps(['typing', c['ctx'], c['e1'], c['e2']]), nontrivial=('[' in c['e1'] or '|' in c['e1']))
             probs = judge_typing(c, i, m, names)
